@@ -42,6 +42,15 @@ Theorem clocktime_add_sub_roundtrip :
                   ticks c2 = ticks c /\ fraction c2 == fraction c.
 Proof. exact ct_add_sub_roundtrip. Qed.
 
+(** Adding two amounts one after the other gives the same time — same ticks, same fraction — as
+    adding their sum at once: offsets accumulated step by step do not drift. *)
+Theorem clocktime_add_additive :
+  forall (c : ctime Q) (t1 t2 : Q),
+    wf c -> 0 <= t1 -> 0 <= t2 -> value c + (t1 + t2) < inject_Z (2 ^ 64) ->
+    exists c1 c2 c12, ct_add_pos c t1 = Ok c1 /\ ct_add_pos c1 t2 = Ok c2 /\ ct_add_pos c (t1 + t2) = Ok c12 /\
+                      ticks c2 = ticks c12 /\ fraction c2 == fraction c12.
+Proof. exact ct_add_pos_additive. Qed.
+
 (** Ordering agrees with ticks + fraction. *)
 Theorem clocktime_order :
   forall a b : ctime Q, frac_ok a -> frac_ok b -> ct_cmp a b = Some (value a ?= value b).
